@@ -285,7 +285,8 @@ func genGenesisState(t *rapid.T) *types.GenesisState {
 		g.MaxMessageBodySize = &types.MaxMessageBodySize{Amount: rapid.SampledFrom([]uint64{0, 1, 132, 8000, 1<<64 - 1}).Draw(t, "maxbodyv")}
 	}
 	if present("nextnonce") {
-		g.NextAvailableNonce = &types.Nonce{Nonce: rapid.SampledFrom([]uint64{0, 1, 1 << 32, 1<<64 - 1}).Draw(t, "nextv")}
+		// (the counter is stored as a Nonce record: its source-domain field is carried along, whatever it says)
+		g.NextAvailableNonce = &types.Nonce{SourceDomain: rapid.SampledFrom([]uint32{0, 0, 4, 7}).Draw(t, "nextdom"), Nonce: rapid.SampledFrom([]uint64{0, 1, 1 << 32, 1<<64 - 1}).Draw(t, "nextv")}
 	}
 	if present("threshold") {
 		g.SignatureThreshold = &types.SignatureThreshold{Amount: rapid.SampledFrom([]uint32{0, 1, 2, 3, 1 << 31, 1<<32 - 1}).Draw(t, "thrv")}
@@ -371,6 +372,67 @@ func c17preludeGenesis() []*types.GenesisState {
 	return out
 }
 
+// c17dupSweep: deterministic pseudo-random long lists with exactly one colliding key.
+func c17dupSweep(st *Stats) *Viol {
+	x := uint64(0x9e3779b97f4a7c15)
+	next := func(n int) int { // xorshift: fixed sequence, no library RNG
+		x ^= x << 13
+		x ^= x >> 7
+		x ^= x << 17
+		return int(x % uint64(n))
+	}
+	base := func() *types.GenesisState {
+		g := types.DefaultGenesis()
+		g.Owner, g.AttesterManager, g.Pauser, g.TokenController = sim.Acct(0), sim.Acct(1), sim.Acct(2), sim.Acct(3)
+		return g
+	}
+	n := 0
+	for round := 0; round < 6000; round++ {
+		size := 13 + next(48)
+		kind := round % 5
+		g := base()
+		// 'size' distinct entries in a shuffled or grouped order
+		idx := make([]int, size)
+		for i := range idx {
+			idx[i] = i
+		}
+		if round%3 != 0 {
+			for i := size - 1; i > 0; i-- {
+				j := next(i + 1)
+				idx[i], idx[j] = idx[j], idx[i]
+			}
+		}
+		dupOf, at := idx[next(size)], next(size+1)
+		seq := append(append(append([]int{}, idx[:at]...), dupOf), idx[at:]...)
+		for _, i := range seq {
+			switch kind {
+			case 0:
+				g.AttesterList = append(g.AttesterList, types.Attester{Attester: fmt.Sprintf("04%0128x", 7000+i)})
+			case 1:
+				g.PerMessageBurnLimitList = append(g.PerMessageBurnLimitList, types.PerMessageBurnLimit{Denom: fmt.Sprintf("udenom%03d", i), Amount: sim.Int(big.NewInt(int64(i + 1)))})
+			case 2:
+				g.TokenPairList = append(g.TokenPairList, types.TokenPair{RemoteDomain: uint32(i % 8), RemoteToken: sim.Pad32([]byte{byte(i / 8), 9}), LocalToken: "uusdc"})
+			case 3:
+				g.UsedNoncesList = append(g.UsedNoncesList, types.Nonce{SourceDomain: uint32(i % 8), Nonce: uint64(i / 8)})
+			default:
+				g.TokenMessengerList = append(g.TokenMessengerList, types.RemoteTokenMessenger{DomainId: uint32(i), Address: sim.Pad32([]byte{byte(i), 3})})
+			}
+		}
+		n++
+		if err := g.Validate(); err == nil {
+			raw := json.RawMessage(chain.Codec().MustMarshalJSON(g))
+			v := viol("C17", 0, fmt.Sprintf("validation accepts a genesis of %d entries in which two entries of a keyed list share a key", size+1), "rejected", "accepted")
+			saveFail("C17", "c17-genesis", raw, v)
+			return v
+		}
+	}
+	st.Class("duplicate-in-long-list", n)
+	st.mu.Lock()
+	st.Evaluations += n
+	st.mu.Unlock()
+	return nil
+}
+
 func RunC17Genesis(t *testing.T) {
 	st := newStats("C17")
 	st.ID = "C17-genesis"
@@ -393,6 +455,11 @@ func RunC17Genesis(t *testing.T) {
 		if v := run(g, "prelude"); v != nil {
 			t.Fatalf("VIOLATION %s", v)
 		}
+	}
+	// duplicate detection must not depend on where in a longer list the two colliding entries sit: lists of
+	// 13..60 entries in many orders, one key twice, straight through GenesisState.Validate
+	if v := c17dupSweep(st); v != nil {
+		t.Fatalf("VIOLATION %s", v)
 	}
 	rapid.Check(t, func(rt *rapid.T) {
 		if v := run(genGenesisState(rt), "random"); v != nil {
